@@ -428,6 +428,7 @@ func translatePipeline(pkgs map[string]*pkgInfo) string {
 	b.WriteString(translateClosure(p))
 	b.WriteString(translateState(p))
 	b.WriteString(translateValidators(p))
+	b.WriteString(translateLoops(p))
 	b.WriteString("end Cors.Gen.GoSrc\n")
 	return b.String()
 }
@@ -813,6 +814,187 @@ func translateValidators(p *pkgInfo) string {
 		fmt.Fprintf(&b, "def %s (%s : Int) : Option CfgErr × %s :=\n  let field : %s := %s\n  %s\n\n", sp.lname, arg, sp.resTy, sp.resTy, sp.zero, body)
 		if len(t.bad) > 0 {
 			fmt.Fprintf(&b, "/- UNSUPPORTED in %s: %s -/\n\n", sp.name, strings.ReplaceAll(strings.Join(t.bad, " ;; "), "-/", "- /"))
+		}
+	}
+	return b.String()
+}
+
+// translateLoops: the bodies of the `for _, name := range names` loops of validateMethods, validateRequestHeaders and
+// validateResponseHeaders as step functions on the model's loop states (one iteration: state, element -> state; `continue`
+// and the end of the body yield the state).  Per function a table maps the Go variables the loop writes to the fields of
+// the model's state record.  Supported: `if` without else (the body may end in `continue`), `X = true` on a mapped flag,
+// `err := &cfgerrors.T{…}` / `new(cfgerrors.T)` followed by `errs = append(errs, err)`, `S.Add(e)` on a mapped set,
+// `name = methods.Normalize(name)`, `normalized := util.ByteLowercase(name)`, the predicates of internal/headers and
+// internal/methods, `==` on strings, `!`, `&&`, `||`.  The prologue (`len(names) == 0`) and the epilogue (errors.Join, the
+// assignments to icfg) stay hand-modelled.
+func translateLoops(p *pkgInfo) string {
+	var b strings.Builder
+	type spec struct {
+		name, lname, stTy, params string
+		vars                      map[string]string // Go lvalue text -> state field
+		isResp                    string
+	}
+	specs := []spec{
+		{"validateMethods", "methodStep", "Validate.MState", "", map[string]string{"icfg.allowAnyMethod": "any", "allowedMethods": "set", "errs": "errs"}, ""},
+		{"validateRequestHeaders", "reqHdrStep", "Validate.RState", "(credentialed : Bool) ", map[string]string{"icfg.asteriskReqHdrs": "asterisk", "icfg.allowAuthorization": "allowAuth", "allowedHeaders": "set", "errs": "errs"}, "false"},
+		{"validateResponseHeaders", "resHdrStep", "Validate.EState", "(credentialed : Bool) ", map[string]string{"exposeAllResHdrs": "all", "exposedHeaders": "set", "errs": "errs"}, "true"},
+	}
+	preds := map[string]string{
+		"methods.IsValid": "Methods.isValid", "methods.IsSafelisted": "Methods.isSafelisted", "methods.IsForbidden": "Methods.isForbidden",
+		"headers.IsValid": "Headers.isValid", "headers.IsForbiddenRequestHeaderName": "Headers.isForbiddenRequestHeaderName",
+		"headers.IsProhibitedRequestHeaderName": "Headers.isProhibitedRequestHeaderName", "headers.IsForbiddenResponseHeaderName": "Headers.isForbiddenResponseHeaderName",
+		"headers.IsProhibitedResponseHeaderName": "Headers.isProhibitedResponseHeaderName", "headers.IsSafelistedResponseHeaderName": "Headers.isSafelistedResponseHeaderName",
+	}
+	for _, sp := range specs {
+		var loop *ast.RangeStmt
+		if p != nil {
+			for _, f := range p.files {
+				for _, d := range f.Decls {
+					if x, ok := d.(*ast.FuncDecl); ok && x.Name.Name == sp.name && x.Recv != nil && x.Body != nil {
+						for _, st := range x.Body.List {
+							if r, ok := st.(*ast.RangeStmt); ok && loop == nil {
+								loop = r
+							}
+						}
+					}
+				}
+			}
+		}
+		if loop == nil || exprText(loop.X) != "names" || loop.Value == nil || exprText(loop.Value) != "name" {
+			fmt.Fprintf(&b, "/-- the loop of `%s` is missing from the source (or ranges over something else). -/\ndef %s : Unit := ()\n\n", sp.name, sp.lname)
+			continue
+		}
+		t := &tr{p: p}
+		var expr func(e ast.Expr) string
+		expr = func(e ast.Expr) string {
+			switch e := e.(type) {
+			case *ast.ParenExpr:
+				return "(" + expr(e.X) + ")"
+			case *ast.Ident:
+				if e.Name == "name" || e.Name == "normalized" {
+					return e.Name
+				}
+				if f, ok := sp.vars[e.Name]; ok {
+					return "st." + f
+				}
+			case *ast.SelectorExpr:
+				s := exprText(e)
+				if f, ok := sp.vars[s]; ok {
+					return "st." + f
+				}
+				if s == "icfg.credentialed" && sp.params != "" {
+					return "credentialed"
+				}
+				if id, ok := e.X.(*ast.Ident); ok && id.Name == "headers" {
+					return "Facts.headers_" + e.Sel.Name
+				}
+			case *ast.UnaryExpr:
+				if e.Op == token.NOT {
+					return "(!" + expr(e.X) + ")"
+				}
+			case *ast.BinaryExpr:
+				if e.Op == token.LAND || e.Op == token.LOR || e.Op == token.EQL {
+					return "(" + expr(e.X) + " " + e.Op.String() + " " + expr(e.Y) + ")"
+				}
+			case *ast.CallExpr:
+				if pr, ok := preds[exprText(e.Fun)]; ok && len(e.Args) == 1 {
+					return "(" + pr + " " + expr(e.Args[0]) + ")"
+				}
+			}
+			return t.unsupported(e)
+		}
+		errVal := func(e ast.Expr) string {
+			if c, ok := e.(*ast.CallExpr); ok && exprText(c.Fun) == "new" && len(c.Args) == 1 && exprText(c.Args[0]) == "cfgerrors.IncompatibleWildcardResponseHeaderNameError" {
+				return "CfgErr.wildcardRespHdr"
+			}
+			u, ok := e.(*ast.UnaryExpr)
+			if !ok || u.Op != token.AND {
+				return t.unsupported(e)
+			}
+			cl, ok := u.X.(*ast.CompositeLit)
+			if !ok {
+				return t.unsupported(e)
+			}
+			f := map[string]ast.Expr{}
+			for _, el := range cl.Elts {
+				kv, ok := el.(*ast.KeyValueExpr)
+				if !ok {
+					return t.unsupported(e)
+				}
+				f[exprText(kv.Key)] = kv.Value
+			}
+			str := func(k string) string {
+				if v, ok := f[k]; ok {
+					if tv, ok := p.info.Types[v]; ok && tv.Value != nil && tv.Value.Kind() == constant.String {
+						return constant.StringVal(tv.Value)
+					}
+				}
+				return "?"
+			}
+			switch exprText(cl.Type) {
+			case "cfgerrors.UnacceptableMethodError":
+				if r := str("Reason"); len(f) == 2 && (r == "invalid" || r == "forbidden") && f["Value"] != nil {
+					return "(CfgErr.method " + expr(f["Value"]) + " ." + r + ")"
+				}
+			case "cfgerrors.UnacceptableHeaderNameError":
+				r, ty := str("Reason"), str("Type")
+				if len(f) == 3 && (r == "invalid" || r == "forbidden" || r == "prohibited") && (ty == "request" || ty == "response") && f["Value"] != nil {
+					return "(CfgErr.headerName " + expr(f["Value"]) + " " + map[string]string{"request": "false", "response": "true"}[ty] + " ." + r + ")"
+				}
+			}
+			return t.unsupported(e)
+		}
+		var stmts func(list []ast.Stmt, ind string) string
+		stmts = func(list []ast.Stmt, ind string) string {
+			if len(list) == 0 {
+				return "st"
+			}
+			s, rest := list[0], list[1:]
+			in := ind + "  "
+			switch s := s.(type) {
+			case *ast.BranchStmt:
+				if s.Tok == token.CONTINUE && s.Label == nil {
+					return "st"
+				}
+			case *ast.IfStmt:
+				if s.Init == nil && s.Else == nil {
+					return "if " + expr(s.Cond) + " then\n" + in + stmts(append(append([]ast.Stmt{}, s.Body.List...), rest...), in) + "\n" + ind + "else\n" + in + stmts(rest, in)
+				}
+			case *ast.ExprStmt:
+				if c, ok := s.X.(*ast.CallExpr); ok && len(c.Args) == 1 {
+					if sel, ok := c.Fun.(*ast.SelectorExpr); ok && sel.Sel.Name == "Add" {
+						if f, ok := sp.vars[exprText(sel.X)]; ok {
+							return "let st : " + sp.stTy + " := { st with " + f + " := st." + f + ".add " + expr(c.Args[0]) + " }\n" + ind + stmts(rest, ind)
+						}
+					}
+				}
+			case *ast.AssignStmt:
+				if len(s.Lhs) == 1 && len(s.Rhs) == 1 {
+					l, r := exprText(s.Lhs[0]), s.Rhs[0]
+					if f, ok := sp.vars[l]; ok && s.Tok == token.ASSIGN && exprText(r) == "true" {
+						return "let st : " + sp.stTy + " := { st with " + f + " := true }\n" + ind + stmts(rest, ind)
+					}
+					if l == "name" && s.Tok == token.ASSIGN && exprText(r) == "methods.Normalize(name)" {
+						return "let name := Methods.normalize name\n" + ind + stmts(rest, ind)
+					}
+					if l == "normalized" && s.Tok == token.DEFINE && exprText(r) == "util.ByteLowercase(name)" {
+						return "let normalized := name.lower\n" + ind + stmts(rest, ind)
+					}
+					// err := <error value>; errs = append(errs, err)
+					if l == "err" && s.Tok == token.DEFINE && len(rest) > 0 {
+						if a, ok := rest[0].(*ast.AssignStmt); ok && a.Tok == token.ASSIGN && len(a.Lhs) == 1 && exprText(a.Lhs[0]) == "errs" && len(a.Rhs) == 1 && exprText(a.Rhs[0]) == "append(errs, err)" {
+							return "let st : " + sp.stTy + " := { st with errs := st.errs ++ [" + errVal(r) + "] }\n" + ind + stmts(rest[1:], ind)
+						}
+					}
+				}
+			}
+			return t.unsupported(s)
+		}
+		body := stmts(loop.Body.List, "  ")
+		fmt.Fprintf(&b, "/-- one iteration of the loop of `%s`, translated from: %s -/\n", sp.name, strings.ReplaceAll(codeText(loop.Body), "-/", "- /"))
+		fmt.Fprintf(&b, "def %s %s(st : %s) (name : Bytes) : %s :=\n  %s\n\n", sp.lname, sp.params, sp.stTy, sp.stTy, body)
+		if len(t.bad) > 0 {
+			fmt.Fprintf(&b, "/- UNSUPPORTED in the loop of %s: %s -/\n\n", sp.name, strings.ReplaceAll(strings.Join(t.bad, " ;; "), "-/", "- /"))
 		}
 	}
 	return b.String()
